@@ -82,7 +82,8 @@ RunOps(s, pr, i, pc, scopes) ==
   IF pr.mods[i].broken \/ pc > Len(pr.mods[i].ops) THEN s
   ELSE LET op  == pr.mods[i].ops[pc]
            top == scopes[Len(scopes)]
-       IN CASE op.k = "from" ->
+       IN CASE op.k = "from" /\ "tc" \in DOMAIN op -> RunOps(s, pr, i, pc + 1, scopes)      \* under `if TYPE_CHECKING:` - never executed
+            [] op.k = "from" ->
                  LET tq == RelTarget(pr, i, op.lvl, op.m)
                      s1 == ImportPath(s, pr, tq, 1)
                      mi == ModByPath(pr, tq)
